@@ -43,8 +43,12 @@ def shunting_yard(expr_nodes: list[ExprNode]) -> list[ExprNode]:
             while (
                 isinstance(expr, BinOp)
                 and len(operator_stack) > 0
-                and OPERATOR_PRECEDENCE[operator_stack[-1].token.value] <= current_precedence
                 and operator_stack[-1].token.value != "("
+                and (
+                    # a prefix operator on the stack binds tighter than any binary operator
+                    isinstance(operator_stack[-1], UnaryOp)
+                    or OPERATOR_PRECEDENCE[operator_stack[-1].token.value] <= current_precedence
+                )
             ):
                 output_queue.append(operator_stack.pop())
             operator_stack.append(expr)
